@@ -447,7 +447,8 @@ class NVSubroutineTranspiler(SubroutineTranspiler):
                 lineno=instr.lineno, reg=carbon, imm0=Immediate(24), imm1=Immediate(4)
             ),
         ]
-        gates += electron_hadamard
+        # (the closing Hadamard consists of instruction objects of its own)
+        gates += [copy(gate) for gate in electron_hadamard]
 
         return gates
 
